@@ -1471,6 +1471,11 @@ func (r *decryptReader) Read(p []byte) (int, error) {
 				return 0, &MalformedFileError{Err: err}
 			}
 			r.ready = unpadded
+			if len(r.ready) == 0 {
+				// the last block was padding only: do not report a
+				// read of zero bytes without error
+				return 0, io.EOF
+			}
 		}
 	}
 
